@@ -3,6 +3,9 @@ import StepupModel.Lemmas.StableInst
 import StepupModel.Lemmas.Acyclic
 import StepupModel.Lemmas.Reach
 import StepupModel.Lemmas.EverOutput
+import StepupModel.Lemmas.SuccOutputs
+import StepupModel.Lemmas.SuccOutputsWitness
+import StepupModel.Lemmas.SuccOutputsGuard
 /-!
 # C09  The stored workflow satisfies its invariants after every transaction
 
@@ -243,6 +246,50 @@ theorem undeclared_file_is_detached_after_every_history (h : List (KConfig × Re
       n.detached = true ∧ n.creator = none :=
   fun n hn hk hu => ⟨StepupModel.K.Ever.undeclared_is_detached h n hn hk hu,
     StepupModel.K.Ever.undeclared_has_no_creator h n hn hk hu⟩
+
+/-! ## I4: a SUCCEEDED step's outputs are BUILT (or VOLATILE) -/
+
+open StepupModel.K.SuccOut in
+/-- **"Every attached output of a SUCCEEDED step is BUILT or VOLATILE" after every history** whose
+requests satisfy `ReqOKS` (20 of the 24 request kinds unconditionally; rejected requests and changing
+configurations allowed): a raw `set_state(SUCCEEDED)` only when the outputs are already built (the
+code sets SUCCEEDED only inside `mark_completed`), `completed` with a hash only when no own output is
+still PLANNED (`update_file_hashes(.., SUCCEEDED)` precedes `mark_completed` in the same transaction),
+no `amend` and no `reset_for_rerun` of a step that is SUCCEEDED (both act on the RUNNING step that
+issued them / was just popped).  In the executor's order of requests the invariant holds after
+every kernel request, not only at the end of the director transaction. -/
+theorem succeeded_outputs_built_after_every_history (h : List (KConfig × Req)) (hg : HistOKS KState.init h) :
+    SuccOutputsOK (KState.init.run h) :=
+  succOutputs_after_every_history h hg
+
+open StepupModel.K.SuccOut in
+/-- The inductive form: any state that satisfies the invariant (not only a reachable one, e.g. a
+database read at a restart) keeps it under every accepted or rejected request that satisfies the
+side condition. -/
+theorem request_keeps_succeeded_outputs_invariant (cfg : KConfig) (r : Req) (s : KState) (hr : ReqOKS s r)
+    (hp : Inv4 s) : Inv4 (s.step cfg r) ∧ (CreatorOK (s.step cfg r) → SuccOutputsOK (s.step cfg r)) :=
+  ⟨step_JK cfg r s hr hp, fun hc => succOutputsOK_of_JK (step_JK cfg r s hr hp) hc⟩
+
+open StepupModel.K.SuccOut in
+/-- Each of the four side conditions is necessary: a kernel-checked state that satisfies I4 (and, for
+the first three, the whole inductive invariant), a request the guard refuses, and I4 false after it.
+The same histories are replayed on the real code (`harness/witness/succ_outputs_*.txt`): model and
+implementation agree, and the implementation-side oracle reports the I4 violation after the last
+line.  The director issues none of the four. -/
+theorem succeeded_outputs_side_conditions_needed :
+    (SuccOutputsOK wState1 ∧ Inv4 wState1 ∧ ¬ ReqOKS wState1 (.setState (stepKey "A") .succeeded) ∧
+      ∃ s', wState1.exec wCfg (.setState (stepKey "A") .succeeded) = .ok s' ∧ ¬ SuccOutputsOK s'.1) ∧
+    (SuccOutputsOK wState2 ∧ Inv4 wState2 ∧ ¬ ReqOKS wState2 (.completed (stepKey "A") (some 7) false) ∧
+      ∃ s', wState2.exec wCfg (.completed (stepKey "A") (some 7) false) = .ok s' ∧ ¬ SuccOutputsOK s'.1) ∧
+    (SuccOutputsOK wState3 ∧ Inv4 wState3 ∧ ¬ ReqOKS wState3 (.amend (stepKey "A") [] [] ["o2"] [] []) ∧
+      ∃ s', wState3.exec wCfg (.amend (stepKey "A") [] [] ["o2"] [] []) = .ok s' ∧ ¬ SuccOutputsOK s'.1) ∧
+    (SuccOutputsOK wState4 ∧ ¬ ReqOKS wState4 (.resetRerun (stepKey "A")) ∧
+      ∃ s', wState4.exec wCfg (.resetRerun (stepKey "A")) = .ok s' ∧ ¬ SuccOutputsOK s'.1) :=
+  ⟨⟨set_state_succeeded_breaks_I4.1, inv4_wState1, guard_refuses_set_state, set_state_succeeded_breaks_I4.2⟩,
+   ⟨completed_with_planned_output_breaks_I4.1, inv4_wState2, guard_refuses_completed,
+     completed_with_planned_output_breaks_I4.2⟩,
+   ⟨amend_of_succeeded_step_breaks_I4.1, inv4_wState3, guard_refuses_amend, amend_of_succeeded_step_breaks_I4.2⟩,
+   ⟨reset_for_rerun_of_succeeded_step_breaks_I4.1, guard_refuses_reset, reset_for_rerun_of_succeeded_step_breaks_I4.2⟩⟩
 
 /-- "Dependencies are acyclic" after every history: no chain of dependency edges leads from a
 node back to itself.  The insertion sites (`_supply_files`, `add_source`) check the recursive
